@@ -12,7 +12,7 @@ import (
 
 func allFeat() (Features, OpFeatures) {
 	return Features{Interfaces: true, Unions: true, ValueTypes: true, Inputs: true, Enums: true, CustomScalar: true, Args: true, ArgDefaults: true, Mutations: true, Subscriptions: true, ValueUnion: true},
-		OpFeatures{Aliases: true, AliasCollide: true, Variables: true, VarDefaults: true, VarOmitted: true, VarInInput: true, VarNamedID: true, VarStricter: true, Directives: true, DirectiveVars: true, NamedFragments: true, InlineFragments: true, Typename: true, RootTypename: true, NodeRoot: true, MultiOp: true, DupFields: true, NullLiterals: true, AbstractFrags: true, ExplicitID: true, IDAlias: true, IDDirective: true, IDWithFragments: true, AbstractNested: true, AbstractCondFrag: true, AbstractFragMeta: true, FragTwice: true, FragDirectives: true}
+		OpFeatures{Aliases: true, AliasCollide: true, Variables: true, VarDefaults: true, VarOmitted: true, VarInInput: true, VarNamedID: true, VarStricter: true, Directives: true, DirectiveVars: true, NamedFragments: true, InlineFragments: true, Typename: true, RootTypename: true, NodeRoot: true, MultiOp: true, DupFields: true, NullLiterals: true, AbstractFrags: true, ExplicitID: true, IDAlias: true, IDDirective: true, IDWithFragments: true, AbstractNested: true, AbstractCondFrag: true, AbstractFragMeta: true, FragTwice: true, FragDirectives: true, FragReuse: true}
 }
 
 func TestGenerators(t *testing.T) {
